@@ -5,6 +5,7 @@ import (
 	"regexp"
 	"go/ast"
 	"go/parser"
+	"go/printer"
 	"go/token"
 	"os"
 	"path/filepath"
@@ -24,6 +25,7 @@ type mutant struct {
 	line     int
 	fn       string
 	orig     string
+	tail     string // appended to the file (declarations the replacement needs)
 }
 
 func genMutants(src []byte, filename string) ([]mutant, error) {
@@ -60,6 +62,44 @@ func genMutants(src []byte, filename string) ([]mutant, error) {
 			}
 			if id, ok := t.(*ast.Ident); ok {
 				curFn = id.Name + "." + curFn
+			}
+		}
+		// an added shortcut: `if mutEarly { return <zero values> }` at the start of the body and in front of every
+		// top-level loop (an opaque condition: the analyses cannot assume it false)
+		{
+			var decl, rets []string
+			if fd.Type.Results != nil {
+				k := 0
+				for _, fl := range fd.Type.Results.List {
+					n := len(fl.Names)
+					if n == 0 {
+						n = 1
+					}
+					for j := 0; j < n; j++ {
+						decl = append(decl, fmt.Sprintf("var mz%d %s", k, string(src[off(fl.Type.Pos()):off(fl.Type.End())])))
+						rets = append(rets, fmt.Sprintf("mz%d", k))
+						k++
+					}
+				}
+			}
+			stmt := "if mutEarly { " + strings.Join(decl, "; ")
+			if len(decl) > 0 {
+				stmt += "; "
+			}
+			stmt += "return " + strings.Join(rets, ", ") + " }\n"
+			at := fd.Body.Lbrace + 1
+			o := off(at)
+			out = append(out, mutant{off: o, end: o, repl: "\n" + stmt, op: "early-ret@entry", line: fset.Position(at).Line, fn: curFn, orig: "", tail: "\nvar mutEarly bool\n"})
+			for _, st := range fd.Body.List {
+				inner := st
+				if ls, ok := st.(*ast.LabeledStmt); ok {
+					inner = ls.Stmt
+				}
+				switch inner.(type) {
+				case *ast.ForStmt, *ast.RangeStmt:
+					o := off(st.Pos())
+					out = append(out, mutant{off: o, end: o, repl: stmt, op: "early-ret@loop", line: fset.Position(st.Pos()).Line, fn: curFn, orig: "", tail: "\nvar mutEarly bool\n"})
+				}
 			}
 		}
 		ast.Inspect(fd.Body, func(n ast.Node) bool {
@@ -124,10 +164,12 @@ func runMutate(repo, verif string, args []string) {
 	}
 	file := args[0]
 	shardI, shardN := 0, 1
-	only := ""
+	only, onlyOp := "", ""
 	for _, a := range args[1:] {
 		if strings.HasPrefix(a, "only=") {
 			only = strings.TrimPrefix(a, "only=")
+		} else if strings.HasPrefix(a, "op=") {
+			onlyOp = strings.TrimPrefix(a, "op=")
 		} else if _, err := fmt.Sscanf(a, "%d/%d", &shardI, &shardN); err != nil {
 			fmt.Fprintln(os.Stderr, "bad argument", a)
 			os.Exit(2)
@@ -157,7 +199,10 @@ func runMutate(repo, verif string, args []string) {
 		if only != "" && m.fn != only {
 			continue
 		}
-		mut := string(src[:m.off]) + m.repl + string(src[m.end:])
+		if onlyOp != "" && !strings.HasPrefix(m.op, onlyOp) {
+			continue
+		}
+		mut := string(src[:m.off]) + m.repl + string(src[m.end:]) + m.tail
 		vc := NewCtx("mutate", "quick", repo, verif)
 		vc.Overlay = map[string][]byte{path: []byte(mut)}
 		vc.Quiet = true
@@ -291,4 +336,227 @@ func runMutAsm(repo, verif string, args []string) {
 		}
 	}
 	fmt.Printf("SUMMARY %s shard %d/%d: killed=%d survived=%d\n", file, shardI, shardN, killed, survived)
+}
+
+// ---- behaviour-preserving transformations (false-alarm battery) ----
+
+// neutralTransform rewrites one file with a semantics-preserving transformation applied at every eligible site.
+func neutralTransform(src []byte, filename, kind string) ([]byte, int, error) {
+	fset := token.NewFileSet()
+	f, err := parser.ParseFile(fset, filename, src, parser.ParseComments)
+	if err != nil {
+		return nil, 0, err
+	}
+	n := 0
+	pure := func(e ast.Expr) bool {
+		ok := true
+		ast.Inspect(e, func(x ast.Node) bool {
+			switch c := x.(type) {
+			case *ast.CallExpr:
+				if id, isID := c.Fun.(*ast.Ident); isID && (id.Name == "len" || id.Name == "cap" || id.Name == "uint64" || id.Name == "int" || id.Name == "uint32" || id.Name == "byte" || id.Name == "Tag" || id.Name == "int64" || id.Name == "uint8") {
+					return true
+				}
+				ok = false
+			case *ast.UnaryExpr:
+				if c.Op == token.ARROW {
+					ok = false
+				}
+			case *ast.FuncLit:
+				ok = false
+			}
+			return ok
+		})
+		return ok
+	}
+	flip := map[token.Token]token.Token{token.LSS: token.GTR, token.GTR: token.LSS, token.LEQ: token.GEQ, token.GEQ: token.LEQ}
+	switch kind {
+	case "swap-eq", "flip-rel":
+		ast.Inspect(f, func(x ast.Node) bool {
+			be, ok := x.(*ast.BinaryExpr)
+			if !ok || !pure(be.X) || !pure(be.Y) {
+				return true
+			}
+			if kind == "swap-eq" && (be.Op == token.EQL || be.Op == token.NEQ) {
+				be.X, be.Y = be.Y, be.X
+				n++
+			}
+			if kind == "flip-rel" {
+				if t, ok := flip[be.Op]; ok {
+					be.X, be.Y = be.Y, be.X
+					be.Op = t
+					n++
+				}
+			}
+			return true
+		})
+	case "incdec":
+		ast.Inspect(f, func(x ast.Node) bool {
+			blk, ok := x.(*ast.BlockStmt)
+			if !ok {
+				return true
+			}
+			for i, st := range blk.List {
+				switch s := st.(type) {
+				case *ast.IncDecStmt:
+					tok := token.ADD_ASSIGN
+					if s.Tok == token.DEC {
+						tok = token.SUB_ASSIGN
+					}
+					blk.List[i] = &ast.AssignStmt{Lhs: []ast.Expr{s.X}, Tok: tok, TokPos: s.TokPos, Rhs: []ast.Expr{&ast.BasicLit{Kind: token.INT, Value: "1", ValuePos: s.TokPos}}}
+					n++
+				case *ast.AssignStmt:
+					if (s.Tok == token.ADD_ASSIGN || s.Tok == token.SUB_ASSIGN) && len(s.Lhs) == 1 && len(s.Rhs) == 1 {
+						if bl, ok := s.Rhs[0].(*ast.BasicLit); ok && bl.Kind == token.INT && bl.Value == "1" {
+							tok := token.INC
+							if s.Tok == token.SUB_ASSIGN {
+								tok = token.DEC
+							}
+							blk.List[i] = &ast.IncDecStmt{X: s.Lhs[0], Tok: tok, TokPos: s.TokPos}
+							n++
+						}
+					}
+				}
+			}
+			return true
+		})
+	case "assign-op":
+		// x op= e  →  x = x op (e)
+		opOf := map[token.Token]token.Token{token.ADD_ASSIGN: token.ADD, token.SUB_ASSIGN: token.SUB, token.OR_ASSIGN: token.OR, token.AND_ASSIGN: token.AND, token.SHL_ASSIGN: token.SHL, token.SHR_ASSIGN: token.SHR, token.XOR_ASSIGN: token.XOR}
+		ast.Inspect(f, func(x ast.Node) bool {
+			as, ok := x.(*ast.AssignStmt)
+			if !ok || len(as.Lhs) != 1 || len(as.Rhs) != 1 || !pure(as.Lhs[0]) {
+				return true
+			}
+			if bop, ok := opOf[as.Tok]; ok {
+				as.Rhs[0] = &ast.BinaryExpr{X: as.Lhs[0], Op: bop, OpPos: as.TokPos, Y: &ast.ParenExpr{X: as.Rhs[0]}}
+				as.Tok = token.ASSIGN
+				n++
+			}
+			return true
+		})
+	case "var-decl":
+		// x := e  →  var x = e   (single name, statement level)
+		ast.Inspect(f, func(x ast.Node) bool {
+			blk, ok := x.(*ast.BlockStmt)
+			if !ok {
+				return true
+			}
+			for i, st := range blk.List {
+				as, ok := st.(*ast.AssignStmt)
+				if !ok || as.Tok != token.DEFINE || len(as.Lhs) != 1 || len(as.Rhs) != 1 {
+					continue
+				}
+				id, ok := as.Lhs[0].(*ast.Ident)
+				if !ok || id.Name == "_" {
+					continue
+				}
+				if _, isLit := as.Rhs[0].(*ast.FuncLit); isLit {
+					continue
+				}
+				blk.List[i] = &ast.DeclStmt{Decl: &ast.GenDecl{Tok: token.VAR, TokPos: as.Pos(), Specs: []ast.Spec{&ast.ValueSpec{Names: []*ast.Ident{id}, Values: []ast.Expr{as.Rhs[0]}}}}}
+				n++
+			}
+			return true
+		})
+	case "flip-else":
+		ast.Inspect(f, func(x ast.Node) bool {
+			ifs, ok := x.(*ast.IfStmt)
+			if !ok || ifs.Init != nil || ifs.Else == nil {
+				return true
+			}
+			eb, ok := ifs.Else.(*ast.BlockStmt)
+			if !ok {
+				return true
+			}
+			ifs.Cond = &ast.UnaryExpr{Op: token.NOT, OpPos: ifs.Cond.Pos(), X: &ast.ParenExpr{X: ifs.Cond, Lparen: ifs.Cond.Pos(), Rparen: ifs.Cond.End()}}
+			ifs.Body, ifs.Else = eb, ifs.Body
+			n++
+			return true
+		})
+	case "reorder":
+		// reverse the order of the function declarations (keeps everything else in place)
+		var idx []int
+		for i, d := range f.Decls {
+			if _, ok := d.(*ast.FuncDecl); ok {
+				idx = append(idx, i)
+			}
+		}
+		for a, b := 0, len(idx)-1; a < b; a, b = a+1, b-1 {
+			f.Decls[idx[a]], f.Decls[idx[b]] = f.Decls[idx[b]], f.Decls[idx[a]]
+			n++
+		}
+		// printing a reordered tree with comments attached by position garbles them: drop free-floating comments
+		var keep []*ast.CommentGroup
+		for _, cg := range f.Comments {
+			if cg.End() < f.Package || strings.HasPrefix(cg.List[0].Text, "//go:") {
+				keep = append(keep, cg)
+			}
+		}
+		f.Comments = keep
+	default:
+		return nil, 0, fmt.Errorf("unknown transformation %q", kind)
+	}
+	var sb strings.Builder
+	if err := printer.Fprint(&sb, fset, f); err != nil {
+		return nil, 0, err
+	}
+	return []byte(sb.String()), n, nil
+}
+
+// runNeutral: simdvet neutral <kind> <file.go>... — all rules on the transformed tree; prints every finding (each one is
+// a false alarm of the checker, since the transformation preserves behaviour).
+func runNeutral(repo, verif string, args []string) {
+	if len(args) < 2 {
+		fmt.Fprintln(os.Stderr, "usage: simdvet neutral <swap-eq|flip-rel|incdec|assign-op|var-decl|flip-else|reorder> <file.go>...")
+		os.Exit(2)
+	}
+	kind := args[0]
+	overlay := map[string][]byte{}
+	total := 0
+	for _, file := range args[1:] {
+		path := filepath.Join(repo, file)
+		src, err := os.ReadFile(path)
+		if err != nil {
+			fmt.Fprintln(os.Stderr, err)
+			os.Exit(2)
+		}
+		out, n, err := neutralTransform(src, path, kind)
+		if err != nil {
+			fmt.Fprintln(os.Stderr, err)
+			os.Exit(2)
+		}
+		overlay[path] = out
+		total += n
+		if os.Getenv("NEUTRAL_DUMP") != "" {
+			os.WriteFile(filepath.Join(os.Getenv("NEUTRAL_DUMP"), file), out, 0644)
+		}
+	}
+	vc := NewCtx("neutral", "quick", repo, verif)
+	vc.Overlay = overlay
+	vc.Quiet = true
+	gp, err := loadGo(repo, cfgAmd64, vc.Overlay)
+	if err != nil {
+		fmt.Printf("INVALID %s: %v\n", kind, err)
+		os.Exit(2)
+	}
+	vc.goCache[cfgAmd64.Name] = gp
+	var names []string
+	for n := range rules {
+		names = append(names, n)
+	}
+	sort.Strings(names)
+	bad := 0
+	for _, n := range names {
+		vc.RunRule(n, rules[n])
+	}
+	for _, o := range vc.Obls {
+		if o.Status == StFinding {
+			bad++
+			fmt.Printf("FALSE-ALARM %s %s %s: %s\n", kind, o.Rule, o.Site, trunc(o.Note, 220))
+		}
+	}
+	fmt.Printf("SUMMARY neutral %s: %d sites transformed, %d findings\n", kind, total, bad)
+	if bad > 0 {
+		os.Exit(1)
+	}
 }
